@@ -87,7 +87,12 @@ impl<'a> Gen<'a> {
                     let n = 1 + self.rng.below(6) as i64;
                     let mut ops: Vec<DataOp> = (0..n).map(|k| DataOp::E(self.lit((id * 7 + k) % 256))).collect();
                     if self.rng.chance(1, 3) {
-                        let s: String = (0..1 + self.rng.below(5)).map(|k| (b'a' + ((id + k as i64) % 26) as u8) as char).collect();
+                        let mut s: String = (0..1 + self.rng.below(5)).map(|k| (b'a' + ((id + k as i64) % 26) as u8) as char).collect();
+                        // strings whose byte count differs from their character count
+                        if self.rng.chance(1, 3) {
+                            let at = self.rng.usize(s.len() + 1);
+                            s.insert_str(at, *self.rng.pick(&["µ", "é", "°", "日本", "ß", "€"]));
+                        }
                         let pos = self.rng.usize(ops.len() + 1);
                         ops.insert(pos, DataOp::S(s));
                     }
